@@ -18,7 +18,7 @@ import (
 func init() {
 	Registry["C18"] = RuleDef{Module: ".", Run: runC18,
 		Technique:   "constant-table evaluation against the CRC16-XMODEM generator, sibling-shape rule over all slot-updating builder methods with a cross-check against the command JSON, guard rule on the cross-slot check, bounds prover on the hash-tag scan",
-		Explanation: "Decides (R18a) that the 256 constants of crc16tab equal the CRC16-XMODEM table generated from polynomial 0x1021 (MSB first, init 0), that the update step is (crc<<8) ^ tab[byte(crc>>8) ^ key[i]] and that every return of slot masks with 16383; (R18b) that every use of slot() in the builder package has the two-arm shape (NoSlot builders overwrite `NoSlot|slot(k)`, others go through check(prev, slot(k)) and store the result back into the same command's slot field on every path), that variadic key methods process every key of a cluster builder, and that every argument the command JSON types as `key` has a slot-updating method reachable from that command's root builder; (R18c) that check returns the new slot only when the previous slot is unset or equal and panics otherwise, and that nothing else assigns the slot field from a key; (R18d) that every index/slice in slot and crc16 is in bounds.",
+		Explanation: "Decides (R18a) that the 256 constants of crc16tab equal the CRC16-XMODEM table generated from polynomial 0x1021 (MSB first, init 0), that the update step is (crc<<8) ^ tab[byte(crc>>8) ^ key[i]] and that every return of slot masks with 16383; (R18b) that every use of slot() in the builder package has the two-arm shape (NoSlot builders overwrite `NoSlot|slot(k)`, others go through check(prev, slot(k)) and store the result back into the same command's slot field on every path), that variadic key methods process every key of a cluster builder, and that every argument the command JSON types as `key` has a slot-updating method reachable from that command's root builder; (R18c) that check returns the new slot only when the previous slot is unset or equal and panics otherwise, and that nothing else assigns the slot field from a key; (R18d) that every index/slice in slot and crc16 is in bounds. (R18e) SetSlot stores slot(key), keeping of the old value only the NoSlot mark.",
 		NotDecided:  "that the two scanning loops of slot implement exactly 'first {, next }, non-empty' (loop semantics beyond index safety and the structural scan rule).",
 	}
 }
@@ -71,6 +71,7 @@ func jsonKeyArgs(args []jsonArg, out *[]string) {
 }
 
 func runC18(r *Report) {
+	setSlotRule(r)
 	p := r.P
 	pk := p.Pkg("rueidis/internal/cmds")
 	if !r.Anchor("R18", "package internal/cmds", pk != nil) {
@@ -546,4 +547,44 @@ func groupedBySlot(call *ssa.Call) bool {
 		}
 	}
 	return lookup && update && ksField
+}
+
+// setSlotRule (R18e): SetSlot replaces the slot bits of a command by slot(key); the only part of
+// the previous value that survives is the NoSlot mark. Any other bit that is carried over (for
+// instance the InitSlot placeholder of a key-less cluster command) yields a number that is not a
+// slot and indexes the cluster's slot tables out of range.
+func setSlotRule(r *Report) {
+	fn := r.FnAnchor("R18e", "rueidis/internal/cmds.(Completed).SetSlot")
+	if fn == nil {
+		return
+	}
+	n := 0
+	for _, s := range Sites(fn, func(in ssa.Instruction) bool { _, ok := in.(*ssa.Store); return ok }) {
+		st := s.Instr.(*ssa.Store)
+		if _, f, _, isf := FieldRef(st.Addr); !isf || f != "ks" {
+			continue
+		}
+		n++
+		isSlotOfKey := func(v ssa.Value) bool {
+			c, ok := v.(*ssa.Call)
+			return ok && CalleeName(c) == "rueidis/internal/cmds.slot" && Desc(c.Call.Args[0]) == "p1"
+		}
+		ok := isSlotOfKey(st.Val)
+		if bo, isb := st.Val.(*ssa.BinOp); isb && bo.Op == token.OR {
+			for _, pair := range [][2]ssa.Value{{bo.X, bo.Y}, {bo.Y, bo.X}} {
+				if k, isc := ConstInt(pair[0]); isc && k == 0x8000 && isSlotOfKey(pair[1]) {
+					// the mark is re-applied only where it was set before
+					for _, g := range DomGuards(s.Block) {
+						if x, op, y, cok := CmpGuard(g); cok && op == token.EQL {
+							if kk, isk := ConstInt(y); isk && kk == 0x8000 && strings.Contains(DescDeep(x), ".ks") {
+								ok = true
+							}
+						}
+					}
+				}
+			}
+		}
+		r.ObSite("R18e", s, "slot-bits-replaced-by-slot-of-key", ok, "SetSlot stores slot(key), or NoSlot|slot(key) where the NoSlot mark was set; no other bit of the previous value survives: "+DescDeep(st.Val))
+	}
+	r.Anchor("R18e", "SetSlot: stores to ks (>= 1)", n >= 1)
 }
